@@ -563,11 +563,10 @@ def check_forward_test_uses_given_coarsening(prog, ctx):
     tm = Terms(cg.node, max_depth=0)
     n = 0
     for loop in [x for x in walk_local(cg.node) if isinstance(x, ast.While)]:
-        t = loop.test
-        if not (isinstance(t, ast.Compare) and len(t.ops) == 1 and isinstance(t.ops[0], ast.Gt) and isinstance(t.left, ast.Name)
-                and isinstance(t.comparators[0], ast.Constant) and t.comparators[0].value == 0):
+        t = tm.term(loop.test)                     # `c > 0` and `0 < c` are the same normalised comparison
+        if not (t[0] == "cmp" and t[1] == "Lt" and t[2] in (("c", "0"), ("c", "0.0")) and t[3][0] == "n"):
             continue
-        counter = t.left.id
+        counter = t[3][1]
         inside = [x for st in loop.body for x in ast.walk(st)]
         if not any(isinstance(x, ast.AugAssign) and isinstance(x.op, ast.Sub) and isinstance(x.target, ast.Name) and x.target.id == counter for x in inside):
             continue
